@@ -1617,8 +1617,21 @@ wav_read_acid_chunk (SF_PRIVATE *psf, uint32_t chunklen)
 
 static int
 wav_set_chunk (SF_PRIVATE *psf, const SF_CHUNK_INFO * chunk_info)
-{	/* The header parser gives up at a marker that is not four printable characters. */
+{	/*
+	** Chunks this file writes and parses itself : a second copy from the application
+	** would be taken for the real one when the file is read. LIST is not in the list :
+	** it is a container for sub-chunks (eg 'adtl') which the application may add.
+	*/
+	static const uint32_t reserved [] =
+	{	RIFF_MARKER, RIFX_MARKER, fmt_MARKER, fact_MARKER, data_MARKER, PEAK_MARKER,
+		cue_MARKER, smpl_MARKER, acid_MARKER, bext_MARKER, cart_MARKER
+		} ;
+
+	/* The header parser gives up at a marker that is not four printable characters. */
 	if (! psf_chunk_id_is_printable (chunk_info))
+		return SFE_BAD_CHUNK_MARKER ;
+
+	if (psf_chunk_id_is_one_of (chunk_info, reserved, ARRAY_LEN (reserved)))
 		return SFE_BAD_CHUNK_MARKER ;
 
 	return psf_save_write_chunk (&psf->wchunks, chunk_info) ;
